@@ -34,13 +34,15 @@ Inductive fault :=
 | FWrite (k : nat)                  (* the k-th write_all / flush of this file (0-based) fails *)
 | FRename.
 
+Inductive lock_fault := LkOk | LkOpenFails | LkWriteFails.
+
 Record oracle := mkOracle {
   o_stop1 : option nat;             (* first pass: the poll (0-based) that first sees the stop flag *)
   o_stop2 : option nat;             (* second / only pass likewise *)
   o_rfail1 : nat -> bool;           (* read_to_string of file i fails in the first pass *)
   o_rfail2 : nat -> bool;
   o_fault : nat -> fault;
-  o_lock_write_fails : bool }.
+  o_lock_fault : lock_fault }.    (* std::fs::write of the lock: open(O_TRUNC) or write fails *)
 
 Record runcfg := mkRunCfg {
   rc_cfg : config;
@@ -274,7 +276,11 @@ Section Driver.
   (* Context::cache_next_reference_id *)
   Definition lock_effs (rc : runcfg) (o : oracle) (id : N) : list eff :=
     if rc_use_cache rc
-    then if o_lock_write_fails o then [ELockTrunc] else [ELockTrunc; ELockWrite id]
+    then match o_lock_fault o with
+         | LkOk => [ELockTrunc; ELockWrite id]
+         | LkOpenFails => []
+         | LkWriteFails => [ELockTrunc]
+         end
     else [].
 
   (* check_references + main.  disc = None: code discovery error *)
